@@ -891,24 +891,40 @@ def run_case(case):
         obs.schema = ScenarioOutline.annotation_schema
         obs.userdata = dict(config.userdata)
         obs.userdata_type = type(config.userdata).__name__
-        obs.gets = []
-        for g in case.get("gets", []):
-            given, dflt = _default_arg(g)
-            args = [g["n"]] + ([dflt] if given else [])
-            try:
-                if g["g"].startswith("as:"):
-                    what = g["g"][3:]
-                    if what == "csv":
-                        r = config.userdata.getas(csv_convert, *args, valuetype=list)
-                    elif what == "percent":
-                        r = config.userdata.getas(percent_convert, *args, valuetype=float)
+        def call_getters():
+            results = []
+            for g in case.get("gets", []):
+                given, dflt = _default_arg(g)
+                target, name = config.userdata, g["n"]
+                if g.get("ns") and "." in name:
+                    # the same value through a namespace view (UserDataNamespace("my.config").getint("x"))
+                    from behave.userdata import UserDataNamespace
+                    prefix, name = name.rsplit(".", 1)
+                    target = UserDataNamespace(prefix, config.userdata)
+                args = [name] + ([dflt] if given else [])
+                try:
+                    if g["g"].startswith("as:"):
+                        what = g["g"][3:]
+                        if what == "csv":
+                            r = target.getas(csv_convert, *args, valuetype=list)
+                        elif what == "percent":
+                            r = target.getas(percent_convert, *args, valuetype=float)
+                        else:
+                            r = target.getas({"int": int, "float": float}[what], *args)
                     else:
-                        r = config.userdata.getas({"int": int, "float": float}[what], *args)
-                else:
-                    r = getattr(config.userdata, g["g"])(*args)
-                obs.gets.append(("ok", r))
-            except ValueError as e:
-                obs.gets.append(("ValueError", str(e)[:80]))
+                        r = getattr(target, g["g"])(*args)
+                    results.append(("ok", r))
+                except ValueError as e:
+                    results.append(("ValueError", str(e)[:80]))
+            return results
+        obs.gets = call_getters()
+        obs.userdata2 = obs.gets2 = None
+        if case.get("update"):
+            # history: typed reads, THEN the user data changes in bulk (config.update_userdata() in before_all), then
+            # the same typed reads again
+            config.update_userdata(dict((k, v) for k, v in case["update"]))
+            obs.userdata2 = dict(config.userdata)
+            obs.gets2 = call_getters()
         obs.defaults_changed = (Configuration.defaults != defaults_before)
         return obs
     finally:
@@ -1099,31 +1115,38 @@ def check(case):
                 clause = "C20.userdata.define"
             res.fail(clause, "userdata[%r] is %r, expected %r (%s); %s" % (name, got, want, origin, what),
                      name=name)
-    for g, (status, value) in zip(case.get("gets", []), obs.gets):
-        given, dflt = _default_arg(g)
-        call = "%s(%r%s)" % (g["g"], g["n"], ", %r" % (dflt,) if given else "")
-        if g["n"] not in obs.userdata:
-            want = dflt if given else GETTER_DEFAULTS.get(g["g"])
-            if status != "ok" or not _same(value, want):
-                res.fail("C20.getter.default", "%s on missing name gives %s %r, expected the default %r"
-                         % (call, status, value, want))
-            res.label("getter:default")
+    for userdata, gets, when in ((obs.userdata, obs.gets, ""), (obs.userdata2, obs.gets2, " [after update_userdata()]")):
+        if gets is None:
             continue
-        text = obs.userdata[g["n"]]
-        want = GETTER_ORACLE[g["g"]](text)
-        if want is OPEN:
-            res.label("open:getter-text")
-            continue
-        if isinstance(want, str) and want == ERR:
-            if status != "ValueError":
-                res.fail("C20.getter.valueerror", "%s with stored text %r returns %r, expected ValueError"
-                         % (call, text, value))
-            res.label("getter:ValueError")
-        else:
-            if status != "ok" or not _same(value, want):
-                res.fail("C20.getter.converted", "%s with stored text %r gives %s %r, expected %r"
-                         % (call, text, status, value, want))
-            res.label("getter:converted")
+        if when:
+            res.label("getter:read-update-read")
+        for g, (status, value) in zip(case.get("gets", []), gets):
+            given, dflt = _default_arg(g)
+            call = "%s(%r%s)%s%s" % (g["g"], g["n"], ", %r" % (dflt,) if given else "", " via namespace" if g.get("ns") and "." in g["n"] else "", when)
+            if g.get("ns") and "." in g["n"]:
+                res.label("getter:via-namespace")
+            if g["n"] not in userdata:
+                want = dflt if given else GETTER_DEFAULTS.get(g["g"])
+                if status != "ok" or not _same(value, want):
+                    res.fail("C20.getter.default", "%s on missing name gives %s %r, expected the default %r"
+                             % (call, status, value, want))
+                res.label("getter:default")
+                continue
+            text = userdata[g["n"]]
+            want = GETTER_ORACLE[g["g"]](text)
+            if want is OPEN:
+                res.label("open:getter-text")
+                continue
+            if isinstance(want, str) and want == ERR:
+                if status != "ValueError":
+                    res.fail("C20.getter.valueerror", "%s with stored text %r returns %r, expected ValueError"
+                             % (call, text, value))
+                res.label("getter:ValueError")
+            else:
+                if status != "ok" or not _same(value, want):
+                    res.fail("C20.getter.converted", "%s with stored text %r gives %s %r, expected %r"
+                             % (call, text, status, value, want))
+                res.label("getter:converted")
     if obs.defaults_changed:
         res.fail("C20.isolation.defaults-mutated", "constructing a Configuration changed the class-level "
                  "Configuration.defaults (the next construction starts from other defaults); %s" % what)
@@ -1266,7 +1289,9 @@ def define_text_st(draw, names=None):
 
 @st.composite
 def getter_st(draw):
-    g = {"g": draw(st.sampled_from(GETTERS)), "n": draw(st.sampled_from(UD_NAMES + ["missing.name"]))}
+    g = {"g": draw(st.sampled_from(GETTERS)), "n": draw(st.sampled_from(UD_NAMES + ["missing.name", "my.config.x"]))}
+    if "." in g["n"] and draw(st.booleans()):
+        g["ns"] = True
     kind = draw(st.sampled_from(["omit", "omit", "none", "int", "float", "str", "bool"]))
     g["dk"] = kind
     if kind == "int":
@@ -1396,6 +1421,8 @@ def case_st(draw, toml_ok=True, focus="options"):
     case = {"kind": "cfg", "layout": layout, "files": files, "cli": cli}
     if gets:
         case["gets"] = gets
+        if draw(st.integers(0, 2)) == 0:
+            case["update"] = [[g["n"], draw(st.sampled_from(UD_FILE_VALUES))] for g in gets if draw(st.integers(0, 3))]
     return case
 
 
@@ -1493,7 +1520,7 @@ def explore(rec):
 
 
 def required_labels(tier):
-    labels = ["file:behave-section-after-kilobytes-of-other-sections", "both-different", "layout:sep", "layout:nested", "layout:same", "files:0", "files:1", "files:2",
+    labels = ["getter:read-update-read", "getter:via-namespace", "file:behave-section-after-kilobytes-of-other-sections", "both-different", "layout:sep", "layout:nested", "layout:same", "files:0", "files:1", "files:2",
               "file:behave.ini", "file:.behaverc", "file:setup.cfg", "file:tox.ini", "where:cwd", "where:home",
               "bool-both", "append-both", "home-relative-path", "outfile-filled", "tags-replace", "placeholder",
               "paths-replace", "coupling:wip", "coupling:quiet", "coupling:junit", "coupling:steps_catalog",
